@@ -564,8 +564,18 @@ def run(ctx):
     Xk = Expander(P, krun)
     for i in krun.calls("tryToKillSomething"):
         a1 = Xk(krun.nodes[i]["args"][1])
-        ctx.check(a1 == "param:ctx.addToCacheAndGet(this->cgroups_)", "roots-are-configured-cgroups", "provenance",
-                  krun.loc(i), "initial candidates resolve the configured cgroup patterns", "initial candidates are " + a1)
+        via = new_helper_return_values(ctx, krun, krun.nodes[i]["args"][1]) if a1 != "param:ctx.addToCacheAndGet(this->cgroups_)" else None
+        if via:
+            # a new helper stands between run() and the resolution: every exit of it has to be the resolution of the configured patterns
+            for h_, r_, t_ in via:
+                ctx.use(h_)
+                ctx.check(t_ == "param:ctx.addToCacheAndGet(this->cgroups_)", "roots-are-configured-cgroups:%s@%d" % (short(h_), h_.nodes[r_].get("line", 0)), "provenance (helpers followed)",
+                          h_.loc(r_), "initial candidates resolve the configured cgroup patterns",
+                          "%s (which run() takes its initial candidates from) can return %s - not the resolution of the configured patterns as they were written: a cgroup "
+                          "the patterns do not match (an ancestor of the matches, say) becomes a kill root and can be chosen as the victim" % (h_.pq, t_[:120]))
+        else:
+            ctx.check(a1 == "param:ctx.addToCacheAndGet(this->cgroups_)", "roots-are-configured-cgroups", "provenance",
+                      krun.loc(i), "initial candidates resolve the configured cgroup patterns", "initial candidates are " + a1)
     # cgroups_ is only filled by the argument parser
     for f in P.fns.values():
         if "BaseKillPlugin" not in f.pq and "Kill" not in f.pq:
